@@ -12,7 +12,7 @@ import sys
 
 from props.common import call, viol, hx, set_knobs
 from props import c19_meta
-from sim.objects import build, snapshot, _plain, kind_of
+from sim.objects import build, snapshot, _plain, kind_of, rebuild_hints
 from ref import fa, cfg as rcfg, pda as rpda, regexp as rrx
 from gen import fa as genfa, pda as genpda, cfg as gencfg, regexp as genrx, tm as gentm, names, edits
 import gambatools.dfa_algorithms as da
@@ -623,6 +623,9 @@ def _run_call(env, o, args, params, ctx):
     if st == 'timeout':
         return 'timeout', st, None, ticks
     if st == 'exc':
+        if o.digest in (d_feedback, d_verdict):
+            # the public checkers catch every Exception and print 'Error: ...': for a verdict an exception IS "not OK"
+            return 'not-OK', st, None, ticks
         return 'exc:' + val.split(':')[0], st, None, ticks
     try:
         d = o.digest(val, ctx)
@@ -717,7 +720,7 @@ def run_case(case, env):
                 out['argsigs'].append('')
                 continue
             if idx in solo:
-                out['solo_inputs'][str(idx)] = {'op': name, 'args': [before[a] for a in ops], 'params': step['params'], 'sigma': case['sigma']}
+                out['solo_inputs'][str(idx)] = {'op': name, 'args': [{**before[a], **rebuild_hints(pool[a])} for a in ops], 'params': step['params'], 'sigma': case['sigma']}
             if 'pda' in o.args:
                 # evidence for the known-finding predicate: did some epsilon-closure of this call exceed the limit?
                 ws = [step['params']['w']] if 'w' in step['params'] else fa.words_upto(sorted(before[ops[0]]['Sigma']), min(step['params'].get('n', 0), 2))
